@@ -63,22 +63,31 @@ pub fn format_model(_args: std::fmt::Arguments<'_>) -> String {
 // nintendo_lz::decompress_arr recorder (wrapper harnesses of C11 only)
 // ---------------------------------------------------------------------------------------------
 
-pub static mut LZ_CALLS: usize = 0;
-pub static mut LZ_ARG_LEN: usize = 0;
-pub static mut LZ_ARG_FIRST: [u8; 8] = [0; 8];
-pub static mut LZ_RETURNS_OK: bool = false;
+/// All monitor state lives in structs that start with a unique non-zero tag. Kani 0.68 resolves a
+/// *constant* whose bytes equal a static's initial value to that static's symbol (measured:
+/// `RawVecInner::ZERO_CAP`, eight zero bytes, was read from `static mut SEARCH_LOOKAHEAD: usize = 0`,
+/// so every `Vec::new()` after the harness had set the look-ahead started with capacity 18); a
+/// tagged struct cannot coincide with any constant of the code under test.
+pub struct LzRecorder {
+    pub tag: u64,
+    pub calls: usize,
+    pub arg_len: usize,
+    pub arg_first: [u8; 8],
+    pub returns_ok: bool,
+}
+pub static mut LZ: LzRecorder = LzRecorder { tag: 0x6D69_6C61_4C5A_5245, calls: 0, arg_len: 0, arg_first: [0; 8], returns_ok: false };
 
 /// Records the slice handed to the dependency and returns Ok(vec![0xAB]) or Err as preset.
 pub fn decompress_arr_recorder(input: &[u8]) -> Result<Vec<u8>, Box<dyn std::error::Error>> {
     unsafe {
-        LZ_CALLS += 1;
-        LZ_ARG_LEN = input.len();
+        LZ.calls += 1;
+        LZ.arg_len = input.len();
         for i in 0..8 {
             if i < input.len() {
-                LZ_ARG_FIRST[i] = input[i];
+                LZ.arg_first[i] = input[i];
             }
         }
-        if LZ_RETURNS_OK {
+        if LZ.returns_ok {
             Ok(vec![0xAB])
         } else {
             Err(Box::new(RecorderError))
@@ -102,9 +111,19 @@ impl std::error::Error for RecorderError {}
 // ---------------------------------------------------------------------------------------------
 
 /// Look-ahead the caller under test must offer (0x12 for LZ10, 0x1000 for LZ13); set by the harness.
-pub static mut SEARCH_LOOKAHEAD: usize = 0;
-pub static mut SEARCH_CALLS: usize = 0;
-pub static mut SEARCH_MAX_WINDOW: usize = 0;
+pub struct SearchMonitor {
+    pub tag: u64,
+    pub lookahead: usize,
+    pub calls: usize,
+    pub max_window: usize,
+    pub ff_step: usize,
+    pub ff_until: usize,
+}
+pub static mut SEARCH: SearchMonitor = SearchMonitor { tag: 0x6D69_6C61_5345_4152, lookahead: 0, calls: 0, max_window: 0, ff_step: 0, ff_until: 0 };
+/// Fast-forward mode (window-edge harnesses of the quick tier): while the cursor is at least 2 and
+/// cursor + SEARCH.ff_step <= SEARCH.ff_until the monitor answers "match of SEARCH.ff_step bytes at
+/// displacement 2" (a true occurrence in the constant input those harnesses use), so the caller
+/// reaches the window edge in ~250 iterations instead of 4096; 0 = always answer "no match".
 
 /// Stands in for `mila::lz13::get_occurrence_length`: checks the call-site contract of the two
 /// compressors (window = the last min(position, 4096) bytes ending at the cursor, look-ahead = the
@@ -117,14 +136,17 @@ pub fn occurrence_contract_monitor(
     old_length: usize,
 ) -> (i32, usize) {
     unsafe {
-        SEARCH_CALLS += 1;
-        if old_length > SEARCH_MAX_WINDOW {
-            SEARCH_MAX_WINDOW = old_length;
+        SEARCH.calls += 1;
+        if old_length > SEARCH.max_window {
+            SEARCH.max_window = old_length;
         }
         assert!(old_length <= 0x1000, "C08/C09: look-back window larger than 4096 bytes: a displacement would not fit the 12-bit field");
         assert!(old_length == core::cmp::min(new_ptr, 0x1000), "C10: the whole window (the last min(position, 4096) bytes) must be offered to the match search");
         assert!(old_ptr + old_length == new_ptr, "C08/C09: the window must end at the cursor");
-        assert!(new_length == core::cmp::min(bytes.len() - new_ptr, SEARCH_LOOKAHEAD), "C10: the look-ahead must be the format's full match length capped by the remaining input");
+        assert!(new_length == core::cmp::min(bytes.len() - new_ptr, SEARCH.lookahead), "C10: the look-ahead must be the format's full match length capped by the remaining input");
+        if SEARCH.ff_step > 0 && new_ptr >= 2 && new_ptr + SEARCH.ff_step <= SEARCH.ff_until && new_length >= SEARCH.ff_step {
+            return (SEARCH.ff_step as i32, 2);
+        }
     }
     (0, 0)
 }
